@@ -108,7 +108,8 @@ def run(c):
         init = ann.get("init", 0)
         os.kill(p.pid, signal.SIGKILL)
         p.wait()
-        deadline = time.time() + 3.0
+        wait_s = 12.0 if pt.startswith("ptrace_step_slow") else 3.0     # the slow child has up to 3000 mounts to finish before it looks at its parent
+        deadline = time.time() + wait_s
         left, init_alive = before, True
         while time.time() < deadline:
             left = procs_with(token) + ([ann["pid"]] if pt.endswith("in_sync") and ann.get("pid") and alive(ann["pid"]) else [])
@@ -116,7 +117,7 @@ def run(c):
             if not left and not init_alive:
                 break
             time.sleep(0.02)
-        took = 3.0 - (deadline - time.time())
+        took = wait_s - (deadline - time.time())
         c.count((pt, round(d, 3)), nontrivial=bool(before) or pt in ("idle", "file_ops"), klass=pt)
         if pt not in ("idle", "file_ops", "after_exec_returned", "ptrace_after_run") and not before:
             c.finding_or_violation(canon("no sandboxed process was alive at the crash point (harness)"), {"announce": ann})
